@@ -101,8 +101,26 @@ def random_case(rng):
     return case(ops, queries(lookups, [t for t in TYPES[:6]], texts))
 
 
+def big_case(nfields, nfns):
+    """a registry far larger than the exhaustive part reaches: n fields f0.. and m functions g0.., looked up at both
+    ends (sizes are chosen around the limits of narrow index types)"""
+    ops = []
+    for i in range(max(nfields, nfns)):
+        if i < nfields:
+            ops.append(("field" if i % 3 else "ofield", b"f%d" % i, TYPES[i % 4]))
+        if i < nfns:
+            ops.append(("fn", b"g%d" % i))
+    names = []
+    for pre, n in ((b"f", nfields), (b"g", nfns)):
+        names += [pre + b"%d" % i for i in sorted({0, 1, 127, 128, 255, 256, 257, n - 2, n - 1, n}) if 0 <= i]
+    qs = [q for q in queries(names, ["int"], names)]
+    return case(ops, qs)
+
+
 def gen(rng, tier):
     out = []
+    for nf, ng in ((255, 3), (256, 256), (257, 0), (300, 300), (5, 257)) + (((2000, 1000),) if tier == "thorough" else ()):
+        out.append(big_case(nf, ng))
     k = 4 if tier == "thorough" else 3
     for n in range(0, k + 1):
         for i, ops in enumerate(itertools.product(ALPHABET, repeat=n)):
